@@ -1,6 +1,9 @@
 import IwModel.Model.Format
 import IwModel.Lemmas.Format
 import IwModel.Lemmas.KvBlk
+import IwModel.Lemmas.KvLinks
+import IwModel.Lemmas.KvLinksRefine
+import IwModel.Lemmas.KvLinksAudit
 /-! # C06 — on-disk structure well-formed, every block accounted for
 
 The audit of Model/Format.lean is the executable statement of the property; it runs on real file
@@ -268,6 +271,114 @@ theorem audit_sound (m : Img) (f : FileImg) (h : audit m = .ok (f, [])) :
     · simp [e] at h1
     · simpa using e
 
+/-! ## Skip-list links as the operations maintain them (link clause of C06, inductively)
+
+`Model/KvLinks.lean` is the database as a heap of blocks that point at each other (head links, tail link,
+counters; per node `lvl`, `n[0..lvl]`, `p0`), with `_lx_find_bounds` walking the links and the link surgery of
+`_lx_split_addkv` / `_lx_del_sblk_lw` / `_sblk_create_v1` / `_sblk_destroy`.  `KvLinks.LinkInv` is the link clause of
+the property stated on those fields (see its fields: every level's chain = nodes of level `≥ i` in level-0 order,
+ending in 0; back links; tail link; counters; head level).  The theorems: it holds initially, every insertion and
+every removal keeps it (so every history does), the model agrees with the node model of C01 on the sequence of
+levels, and a file image with these link fields passes the link clauses of the audit above. -/
+section Links
+open IwModel.KvLinks
+
+/-- the model's number of levels is the one of the source (`Gen/Consts.lean`, regenerated) -/
+theorem links_slevels : KvLinks.SLEVELS = Gen.SLEVELS := by decide
+
+/-- **A new database satisfies the link clause** (no node: all chains empty, counters 0, head level 0). -/
+theorem linkinv_empty (blk : Nat) (hb : blk ≠ 0) : LinkInv (KvLinks.empty blk) ∧ levels (KvLinks.empty blk) = [] := by
+  have h := KvLinks.linkInv_empty blk hb
+  exact ⟨h.1, by simp [levels, h.2]⟩
+
+/-- **The search.** On a state satisfying the link clause the chute `_lx_find_bounds` computes by walking links (for
+a search that passes exactly the first `pos` nodes) is, per level `i ≤ nlvl`: the last node of level `≥ i` among
+those `pos` nodes (the database block if none), and the first node of level `≥ i` after them (0 = database tail if
+none). -/
+theorem find_bounds_chute {s : LDb} (h : LinkInv s) (pos nlvl : Nat) :
+    findBounds s (fun x => ((order s).take pos).contains x) nlvl =
+      (⟨(List.range (nlvl + 1)).map fun i => (((order s).take pos).filter fun x => decide (i ≤ lvlOf s x)).getLast?.getD s.blk,
+        (List.range (nlvl + 1)).map fun i => (((order s).drop pos).filter fun x => decide (i ≤ lvlOf s x)).head?.getD 0⟩,
+       ((order s).take pos).getLast?.getD s.blk, ((order s).drop pos).head?.getD 0) :=
+  h.findBounds_eq pos nlvl
+
+/-- **Insertion keeps the link clause** — at every position (`pos = 0`: in front, `pos ≥` node count: at the end),
+for every level below `SLEVELS` (whether or not `_sblk_genlevel` clamped it; including a level above the current head
+level, which makes new head links), for every block number the allocator may return (non-zero, not the database block,
+not in use).  The new node sits at index `pos` of the level-0 order, the level sequence gains `lvl` there. -/
+theorem linkinv_insert {s : LDb} (h : LinkInv s) (pos nid lvl : Nat) (hn0 : nid ≠ 0) (hnb : nid ≠ s.blk)
+    (hfresh : nid ∉ order s) (hl : lvl < KvLinks.SLEVELS) :
+    LinkInv (insertAt s pos nid lvl) ∧
+    order (insertAt s pos nid lvl) = (order s).take pos ++ nid :: (order s).drop pos ∧
+    levels (insertAt s pos nid lvl) = (levels s).take pos ++ lvl :: (levels s).drop pos :=
+  h.insertAt pos nid lvl hn0 hnb hfresh hl
+
+/-- **Removal keeps the link clause** — of every node: first (head links and the successor's back link change), last
+(tail link), the only one (chain empties, tail link = database block), a node that alone populates the top levels (head
+links become 0, the head level drops). -/
+theorem linkinv_remove {s : LDb} (h : LinkInv s) (pos : Nat) (hpos : pos < (order s).length) :
+    LinkInv (removeAt s pos) ∧
+    order (removeAt s pos) = (order s).eraseIdx pos ∧
+    levels (removeAt s pos) = (levels s).eraseIdx pos :=
+  h.removeAt pos hpos
+
+/-- **Every history keeps the link clause.** From a new database, any sequence of admissible structural steps
+(`OpsOk`: removal positions exist, inserted block numbers are not in use, levels `< SLEVELS`) leads to a state
+satisfying `LinkInv`, whose level sequence is the one obtained by inserting/erasing in a plain list. -/
+theorem linkinv_history (blk : Nat) (hb : blk ≠ 0) (ops : List LOp) (hok : OpsOk (KvLinks.empty blk) ops) :
+    LinkInv (KvLinks.run (KvLinks.empty blk) ops) ∧
+    levels (KvLinks.run (KvLinks.empty blk) ops) = ops.foldl stepLevels [] := by
+  have h := (linkinv_empty blk hb)
+  have := h.1.run ops hok
+  rw [h.2] at this
+  exact this
+
+/-- `LinkInv` is exactly "the state is the threading of a list of (block, level) pairs": the characterisation the
+proofs work with (`KvLinks.Rep`: every node's `n[i]` is the first later node of level `≥ i`, `p0` the previous node). -/
+theorem linkinv_iff_threading (s : LDb) : LinkInv s ↔ ∃ L, Rep s L := KvLinks.linkInv_iff_rep s
+
+/-- **The link model and the node model of C01 agree.** Run any history of `put`/`put-no-overwrite`/`del`/`get` calls
+(levels drawn `< SLEVELS`, any comparator) on `Model/Kv.lean` and let the link model take a structural step whenever the
+node count changes (`KvLinks.linkStep`: creation at index `routeIdx` with the clamped level, destruction of node
+`routeIdx - 1`, fresh block numbers): the link model satisfies the link clause throughout and its level-0 sequence of
+levels equals `d.nodes.map (·.lvl)` of the node model, which is the state `Kv.runNode` reaches. -/
+theorem links_refine_nodes {K V : Type} (gt : K → K → Bool) (blk : Nat) (hb : blk ≠ 0) (ops : List (Kv.Op K V))
+    (hops : ∀ op ∈ ops, opLvl op < KvLinks.SLEVELS) :
+    LinkInv (runBoth gt ⟨[], []⟩ (KvLinks.empty blk) ops).2 ∧
+    levels (runBoth gt ⟨[], []⟩ (KvLinks.empty blk) ops).2 = (runBoth gt ⟨[], []⟩ (KvLinks.empty blk) ops).1.nodes.map (·.lvl) ∧
+    (runBoth gt ⟨[], []⟩ (KvLinks.empty blk) ops).1 = (Kv.runNode gt ⟨[], []⟩ ops).1 := by
+  have h := linkinv_empty blk hb
+  exact runBoth_refines gt ⟨[], []⟩ (KvLinks.empty blk) ops h.1 (by rw [h.2]; rfl) hops
+
+/-- **Bridge to the audit.** A database image whose link fields are those of a state satisfying the link clause
+(`ImgOf`: database block, head links, tail link, counters, and the nodes of the level-0 chain with block, level, links,
+back link — everything else arbitrary) makes `levelErrs` (every level), `linkErrs` and `tailOk` of `checkDb` report
+nothing: in the vocabulary of `checkDb_sound_levels`, `followLevel = levelChain` and counter = count. -/
+theorem linkinv_audit_clean {s : LDb} (h : LinkInv s) (d : DbImg) (hd : ImgOf s d) :
+    (∀ i, i < Gen.SLEVELS → levelErrs d i = []) ∧ linkErrs d = [] ∧ tailOk d = true := by
+  have := h.audit_clean d hd
+  rw [links_slevels] at this
+  exact this
+
+/-- the image built from the model is such an image; with the previous theorem and `linkinv_history`: after every
+history the image of the model passes the link clauses of the audit -/
+theorem history_image_audits_clean (blk : Nat) (hb : blk ≠ 0) (ops : List LOp) (hok : OpsOk (KvLinks.empty blk) ops) :
+    (∀ i, i < Gen.SLEVELS → levelErrs (toImg (KvLinks.run (KvLinks.empty blk) ops)) i = []) ∧
+    linkErrs (toImg (KvLinks.run (KvLinks.empty blk) ops)) = [] ∧ tailOk (toImg (KvLinks.run (KvLinks.empty blk) ops)) = true :=
+  linkinv_audit_clean (linkinv_history blk hb ops hok).1 _ (imgOf_toImg _)
+
+/-- a concrete history: five nodes (levels 0, 2, 1, 5, 0 created in that order at positions 0, 1, 1, 0, 4), then the
+first node (which alone populates levels 3..5), the last and a middle node are removed -/
+def exLinkOps : List LOp := [.ins 0 10 0, .ins 1 11 2, .ins 1 12 1, .ins 0 13 5, .ins 4 14 0, .rm 0, .rm 3, .rm 1]
+
+example : OpsOk (KvLinks.empty 1) exLinkOps := by
+  simp only [exLinkOps, OpsOk, LOp.ok]
+  decide
+example : levels (KvLinks.run (KvLinks.empty 1) exLinkOps) = [0, 2] := by decide
+example : headLvl (KvLinks.run (KvLinks.empty 1) (exLinkOps.take 5)) = 5 ∧ headLvl (KvLinks.run (KvLinks.empty 1) exLinkOps) = 2 := by decide
+
+end Links
+
 def exNode : Sblk :=
   { flags := 1, lvl := 0, lkl := 2, pnum := 2, p0 := 2, kblk := 8, piAll := 1 :: 0 :: List.replicate 30 0, n := [0], bpos := 1,
     lk := [7, 7], szpow := 9, idxsz := 66, slots := (6, 3) :: (3, 3) :: List.replicate 30 (0, 0), blk := 4,
@@ -338,7 +449,7 @@ theorem blkinv_rmkv (b : KvBlk.KvBlk) (h : KvBlk.BlkInv b) (idx : Nat) (hidx : i
     KvBlk.BlkInv (KvBlk.rmkv b idx noResize) := KvBlk.blkInv_rmkv h idx (by rw [h.n32]; exact hidx) noResize
 
 /-- `_kvblk_updatev` (any slot, any new value; in place, grown into the gap below the previous record, or removed and re-added —
-including the path where the re-add fails) -/
+and the refusal of an oversize record) -/
 theorem blkinv_updatev (b : KvBlk.KvBlk) (h : KvBlk.BlkInv b) (idx : Nat) (hidx : idx < Gen.KVBLK_IDXNUM) (val : Bytes) :
     KvBlk.Geo (KvBlk.updatev b idx val).blk ∧ KvBlk.BlkInv (KvBlk.sync (KvBlk.updatev b idx val).blk) :=
   ⟨KvBlk.geo_updatev h idx (by rw [h.n32]; exact hidx) val, KvBlk.blkInv_sync (KvBlk.geo_updatev h idx (by rw [h.n32]; exact hidx) val)⟩
@@ -384,13 +495,44 @@ theorem updatev_content (b : KvBlk.KvBlk) (h : KvBlk.BlkInv b) (idx : Nat) (hidx
       (KvBlk.recs b').Perm (((KvBlk.sl b.slots idx).key, val) :: rest) :=
   KvBlk.updatev_recs h idx (by rw [h.n32]; exact hidx) val hused b' i' e
 
-/-- the only failure of `_kvblk_updatev` in the model is `IWKV_ERROR_MAXKVSZ` from the re-add (record larger than 0xfffffff bytes),
-and on that path the old record has already been removed: the error does NOT leave the block unchanged (see design notes) -/
-theorem updatev_failure_loses_record (b : KvBlk.KvBlk) (h : KvBlk.BlkInv b) (idx : Nat) (hidx : idx < Gen.KVBLK_IDXNUM) (val : Bytes)
+/-- **A failing `_kvblk_updatev` leaves the block unchanged.** The only failure is `IWKV_ERROR_MAXKVSZ` (the new record would be larger than
+0xfffffff bytes) and it is decided before anything is touched (fix ade5254 of finding C06-MAXKV) -/
+theorem updatev_failure_keeps_block (b : KvBlk.KvBlk) (h : KvBlk.BlkInv b) (idx : Nat) (hidx : idx < Gen.KVBLK_IDXNUM) (val : Bytes)
     (hused : (KvBlk.sl b.slots idx).len ≠ 0) (b' : KvBlk.KvBlk) (err : KvBlk.AddRes) (e : KvBlk.updatev b idx val = .failed b' err) :
+    b' = b ∧ err = .maxkvsz ∧ KvBlk.recSize (KvBlk.sl b.slots idx).key val > Gen.IWKV_MAX_KVSZ :=
+  KvBlk.updatev_failed_keeps h idx (by rw [h.n32]; exact hidx) val hused b' err e
+
+/-- **A failing `_kvblk_addkv` leaves the block unchanged**: both refusals (`_IWKV_RC_KVBLOCK_FULL`: no free slot; `IWKV_ERROR_MAXKVSZ`: record
+too large) are decided before anything is touched, and they are the only ones -/
+theorem addkv_failure_keeps_block (b : KvBlk.KvBlk) (key val : Bytes) (hf : ∀ b' i, KvBlk.addkv b key val ≠ .ok b' i) :
+    KvBlk.step b (.add key val) = b ∧
+    ((KvBlk.addkv b key val = .full ∧ b.zidx = none) ∨
+     (KvBlk.addkv b key val = .maxkvsz ∧ KvBlk.recSize key val > Gen.IWKV_MAX_KVSZ)) := by
+  constructor
+  · cases hq : KvBlk.addkv b key val with
+    | ok b' i => exact absurd hq (hf b' i)
+    | full => simp only [KvBlk.step, hq]
+    | maxkvsz => simp only [KvBlk.step, hq]
+  · simp only [KvBlk.addkv] at hf ⊢
+    cases hz : b.zidx with
+    | none => left; exact ⟨rfl, rfl⟩
+    | some z =>
+      right
+      simp only [hz] at hf ⊢
+      split
+      · rename_i hbig; exact ⟨rfl, hbig⟩
+      · rename_i hsmall
+        simp only [hsmall, if_false] at hf
+        exact absurd rfl (hf _ _)
+
+/-- HISTORICAL witness of finding C06-MAXKV (fixed by ade5254): `_kvblk_updatev` as it was (`KvBlk.updatevOld`, no size test before the
+removal) failed only with `IWKV_ERROR_MAXKVSZ` from the re-add, and on that path the old record had already been removed — the error
+did not leave the block unchanged -/
+theorem updatev_old_loses_record (b : KvBlk.KvBlk) (h : KvBlk.BlkInv b) (idx : Nat) (hidx : idx < Gen.KVBLK_IDXNUM) (val : Bytes)
+    (hused : (KvBlk.sl b.slots idx).len ≠ 0) (b' : KvBlk.KvBlk) (err : KvBlk.AddRes) (e : KvBlk.updatevOld b idx val = .failed b' err) :
     err = .maxkvsz ∧ KvBlk.recSize (KvBlk.sl b.slots idx).key val > Gen.IWKV_MAX_KVSZ ∧
     (KvBlk.recs b).Perm (((KvBlk.sl b.slots idx).key, (KvBlk.sl b.slots idx).val) :: KvBlk.recs b') :=
-  KvBlk.updatev_failed h idx (by rw [h.n32]; exact hidx) val hused b' err e
+  KvBlk.updatevOld_failed h idx (by rw [h.n32]; exact hidx) val hused b' err e
 
 theorem zipIdx_pairwise {α : Type} (l : List α) (k : Nat) : (l.zipIdx k).Pairwise (fun x y => x.2 < y.2) := by
   induction l generalizing k with
